@@ -5,7 +5,7 @@ from vlib.common import coq_str, coq_list
 
 THEOREMS = ["C08_complete_assembles_listed_parts", "C08_complete_uses_latest_uploads", "C08_part_is_latest_upload", "C08_failed_complete_changes_nothing",
             "C08_only_put_and_complete_touch_objects", "C08_uploads_are_isolated", "C08_abort_removes", "C08_finished_upload_is_gone",
-            "C08_copy_range_exact", "C08_copy_range_window", "C08_copy_range_complete", "C08_slice_length"]
+            "C08_copy_range_exact", "C08_copy_range_window", "C08_copy_range_complete", "C08_slice_length", "C08_list_uploads_page", "C08_list_uploads_pages_complete"]
 TARGETS = ["Properties/C08.vo", "Check/MultipartCheck.vo"]
 MIN = 5 * 1024 * 1024
 KEYS = ["mp/a", "b c+d", "ü/deep/er/key", "plain"]
@@ -358,6 +358,40 @@ def history(chk, cl, bk, w, rnd, n_ops):
 
 
 
+def uploads_paging(chk, gwbin):
+    """ListMultipartUploads followed page by page (key-marker / upload-id-marker from the previous page) with several uploads of one
+    key: every upload in progress exactly once, in (key, upload id) order, for every page size (C08_list_uploads_pages_complete)"""
+    with gw.Site({"iam": False}, name="c08p") as site:
+        g = site.gateway(gwbin)
+        cl = s3c.Client(g.port, "root", "rootsecret")
+        chk.require(cl.req("PUT", "/bkp").status == 200, "c08:setup", "CreateBucket failed")
+        ups = []
+        for k, n in (("a", 3), ("b", 1), ("c/d", 2), ("c", 2), ("zz/y/x", 3)):
+            for _ in range(n):
+                r = cl.req("POST", "/bkp/" + k, query={"uploads": ""})
+                if r.status == 200: ups.append((k, r.xml().findtext("UploadId")))
+        want = sorted(ups)
+        for mx in (1, 2, 3, 4, 1000):
+            seen, km, im, pages, ended = [], "", "", 0, False
+            while pages < 40:
+                q = {"uploads": "", "max-uploads": str(mx)}
+                if km: q["key-marker"] = km
+                if im: q["upload-id-marker"] = im
+                r = cl.req("GET", "/bkp", query=q); x = r.xml(); pages += 1
+                if r.status != 200 or x is None: break
+                page = [(u.findtext("Key"), u.findtext("UploadId")) for u in x.findall("Upload")]
+                seen += page
+                if x.findtext("IsTruncated") != "true": ended = True; break
+                km, im = x.findtext("NextKeyMarker") or "", x.findtext("NextUploadIdMarker") or ""
+            chk.case(("uploads-paging", mx), True); chk.traces += 1; chk.count("uploads-paging:max=%d:%s" % (mx, "complete" if seen == want and ended else "differs"))
+            if seen != want or not ended:
+                chk.fail("c08:list-uploads-paging", "ListMultipartUploads followed with max-uploads=%d over %d uploads (several per key): %s after %d pages; %d uploads seen, %d distinct, %d never shown" % (
+                    mx, len(want), "ended" if ended else "did not end", pages, len(seen), len(set(seen)), len(set(want) - set(seen))),
+                    {"max_uploads": mx, "uploads": want, "seen": seen[:30], "pages": pages, "ended": ended})
+        for k, u in ups: cl.req("DELETE", "/bkp/" + k, query={"uploadId": u})
+        chk.tie("gateway still running after the paged upload listings", g.alive(), g.log_tail())
+
+
 def checksummed_and_strays(chk, gwbin, rnd):
     """(a) a completion refused for its full-object checksum leaves the object stored under the key exactly as it was and the upload
     completable; (b) ListMultipartUploads shows the uploads in progress and nothing else, also after refused part uploads."""
@@ -501,6 +535,7 @@ def run(chk):
                 shutil.rmtree(os.path.join(site.root, bk), ignore_errors=True)
             chk.tie("gateway still running (%s)" % label, g.alive(), g.log_tail())
     checksummed_and_strays(chk, gwbin, rnd)
+    uploads_paging(chk, gwbin)
     if not built:
         return
     text = ("From Coq Require Import String List ZArith Bool.\nFrom VGW Require Import Base.GoStr Model.Multipart Check.MultipartCheck.\n"
